@@ -139,8 +139,19 @@ pub fn convert_bsei_stsei(
     let bsei_amount_with_fee: Uint128;
     if state.bsei_exchange_rate < threshold {
         let max_peg_fee = bsei_amount * recovery_fee;
-        let required_peg_fee = (total_bsei_supply + current_batch.requested_bsei_with_fee)
+        let peg_gap = (total_bsei_supply + current_batch.requested_bsei_with_fee)
             .checked_sub(state.total_bond_bsei_amount)?;
+        // The whole `bsei_amount` is burnt but only `rate * (bsei_amount - fee)` leaves the bSei pool,
+        // so the fee that restores the peg is `bsei_amount - (bsei_amount - gap) / rate`; charging the
+        // whole gap would push the bSei exchange rate above 1.
+        let required_peg_fee = if bsei_amount > peg_gap {
+            bsei_amount.saturating_sub(decimal_division(
+                bsei_amount - peg_gap,
+                state.bsei_exchange_rate,
+            ))
+        } else {
+            peg_gap
+        };
         let peg_fee = Uint128::min(max_peg_fee, required_peg_fee);
         bsei_amount_with_fee = bsei_amount.checked_sub(peg_fee)?;
     } else {
